@@ -9,29 +9,60 @@ import (
 // corpus: the minimal failing inputs of the listed findings, run first so that the quick tier reaches each of
 // them deterministically (and a repaired defect is noticed as such).
 type corpusCase struct {
-	spec     Spec
-	nativeMk bool
-	fault    bool
+	path string
+	kind string // diff | native | cold | faults
 }
 
-var corpus = []corpusCase{}
+var corpus = []corpusCase{
+	// stale *tryFrame after an iterator close reallocated the try stack (fresh runtimes only)
+	{"global > try{@}finally > forof-throw.return{@} > try{@}finally > normal", "cold"},
+	{"global > try{@}finally-break > forof-throw.return{@} > try{@}finally-throw > normal", "cold"},
+	{"gen-drain > try{@}finally > forof-throw.return{@} > forof-break-gen.finally{@} > normal", "cold"},
+	// finally-throw caught by the own catch clause
+	{"global > try{@}catch-finally-throw > normal", "diff"},
+	{"gen-drain > try{@}catch-finally-throw > normal", "diff"},
+	// pending return value clobbered by an abandoned nested return
+	{"func > return-finally{@} > try{@}finally-break > return", "diff"},
+	{"func > return-finally{@} > try{@}catch > try{@}finally-throw > return", "diff"},
+	{"gen-drain > return-finally{@} > try{@}finally-break > return", "diff"},
+	{"gen-drain > return-finally{@} > try{@}catch > try{@}finally-throw > return", "diff"},
+	{"gen-return@1 > yieldstar-gen.finally{@} > return-finally{@} > try{@}finally-break > return", "diff"},
+	{"gen-throw@1 > return-finally{@} > try{@}catch > return-finally{@} > yield", "diff"},
+	// generator return(): exception thrown by a finally block
+	{"gen-return@1 > try{@}catch > try{@}finally-throw > yield", "diff"},
+	{"gen-return@1 > forof{@} > try{@}finally-throw > try{@}finally-return > yield", "diff"},
+	{"gen-return@1 > yieldstar-gen.finally{@} > yieldstar.next2{@} > throw", "diff"},
+	// generator return(): exception crossing a native frame caught inside the finally block
+	{"gen-return@1 > yieldstar-gen.finally{@} > try{@}catch > forof-break.return{@} > throw", "diff"},
+	{"global > forof-break-gen.finally{@} > try{@}catch > forof-break.return{@} > throw", "diff"},
+	// iteratorRecord.iterate closes / swallows on uncatchable errors
+	{"global > fromMap-throw.return{@} > normal", "faults"},
+	{"global > fromMap.cb{@} > normal", "faults"},
+	// regression guards for repaired defects (for-of unwinding on interrupt / stack overflow)
+	{"global > forof{@} > normal", "faults"},
+	{"func > forof{@} > forof{@} > throw", "faults"},
+}
 
 func runCorpus(r *core.Run, bounds map[string]interface{}) bool {
 	w := &worker{r: r}
 	wn := &worker{r: r, nativeMk: true}
 	for _, c := range corpus {
-		x := w
-		if c.nativeMk {
-			x = wn
-		}
-		ok := false
-		if c.fault {
-			ok = x.doFaults(c.spec)
-		} else {
-			ok = x.do(c.spec, -1)
+		s, err := ParsePath(c.path)
+		ok := err == nil
+		if ok {
+			switch c.kind {
+			case "diff":
+				ok = w.do(s, -1)
+			case "native":
+				ok = wn.do(s, -1)
+			case "cold":
+				ok = w.doCold(s)
+			case "faults":
+				ok = w.doFaults(s) && wn.doFaults(s)
+			}
 		}
 		if !ok {
-			r.Violation("corpus|invalid", "corpus spec does not build: "+fmt.Sprint(c.spec), c.spec)
+			r.Violation("corpus|invalid", "corpus path is not a valid program: "+c.path, c.path)
 		}
 	}
 	bounds["regression corpus"] = fmt.Sprintf("%d fixed cases", len(corpus))
